@@ -1241,6 +1241,23 @@ func visitedSetSearch(c *core.Ctx, p *load.Prog, validate *ast.FuncDecl) bool {
 						}
 					}
 				}
+				// the membership test may be one operand of the skipping condition:
+				// if !isStruct || seen[x] { continue }
+				ast.Inspect(x.Cond, func(k ast.Node) bool {
+					if u, ok := k.(*ast.UnaryExpr); ok && u.Op == token.NOT {
+						return false
+					}
+					if kx, ok := k.(*ast.IndexExpr); ok {
+						if id, ok := ast.Unparen(kx.X).(*ast.Ident); ok {
+							if t := info.TypeOf(id); t != nil {
+								if _, isMap := t.Underlying().(*types.Map); isMap {
+									tested[info.ObjectOf(id)] = true
+								}
+							}
+						}
+					}
+					return true
+				})
 			case *ast.AssignStmt:
 				for _, l := range x.Lhs {
 					if ix, ok := l.(*ast.IndexExpr); ok {
